@@ -67,7 +67,7 @@ m = {
       "5.3"),
  ],
  "not_applicable": [{"property_id": k, "reason": v} for k, v in sorted(NA.items())],
- "notes": "Technique family: deterministic simulation with fault injection only. 17 of 20 properties are pure functions of (bytes, depth, registry) with no schedule, clock, I/O, fault or retained state in their anchors and are listed under not_applicable (DESIGN.md 0, 6). Two genuine defects were found by the checks on the baseline tree and repaired with fix: commits (known_findings.json, findings/).",
+ "notes": "Technique family: deterministic simulation with fault injection only. 17 of 20 properties are pure functions of (bytes, depth, registry) with no schedule, clock, I/O, fault or retained state in their anchors and are listed under not_applicable (DESIGN.md 0, 6). Three genuine defects were found by the checks on the baseline tree (hash-seed and directory-order dependence of the tree, json_to_tree raising on every call, dependence on PYTHONINTMAXSTRDIGITS) and repaired with fix: commits (known_findings.json, findings/); one further defect outside the claimed properties (scan never returns on a truncated PE image) is recorded in findings/observation-C01-truncated-pe-hang.md.",
 }
 json.dump(m, open("/verif/MANIFEST.json", "w"), indent=1)
 print("ok")
